@@ -31,8 +31,8 @@ func GenCfg(r *hx.Rng, c10 bool) dsx.Cfg {
 	c.OneWay = r.Chance(12)
 	c.Data = r.Chance(35)
 	c.Trailers = r.Chance(15)
-	c.RetryOn = r.Chance(65)
-	c.N = r.Pick([]int{0, 0, 1, 2, 3, 4})
+	c.RetryOn = r.Chance(70)
+	c.N = r.Pick([]int{0, 1, 1, 2, 3, 4, 5})
 	if r.Chance(20) {
 		c.Codes = [][]int{{503}, {404, 500}, {200}}[r.Intn(3)]
 	}
@@ -70,7 +70,7 @@ func randomChooser(r *hx.Rng, stopPct int) dsx.Chooser {
 			}
 			return r.Intn(len(opts))
 		}
-		if step > 1 && r.Chance(stopPct) || done && r.Chance(70) {
+		if step > 2 && r.Chance(stopPct) || done && r.Chance(60) {
 			return -1
 		}
 		x := r.Intn(100)
@@ -78,6 +78,17 @@ func randomChooser(r *hx.Rng, stopPct int) dsx.Chooser {
 		switch {
 		case x < 38:
 			class = has("R")
+			if r.Chance(45) { // a retryable answer on some live attempt
+				var c503 []int
+				for _, i := range class {
+					if strings.HasSuffix(opts[i], ":503:00") || strings.HasSuffix(opts[i], ":503:01") || strings.HasSuffix(opts[i], ":500:00") {
+						c503 = append(c503, i)
+					}
+				}
+				if len(c503) > 0 {
+					class = c503
+				}
+			}
 		case x < 58:
 			class = has("X")
 		case x < 76:
@@ -100,11 +111,59 @@ func randomChooser(r *hx.Rng, stopPct int) dsx.Chooser {
 	}
 }
 
-// RunMany executes n random histories (par at a time) and emits them under prop.
+// persistChooser drives one failure kind on the latest attempt until the exchange is done: the retry loop is walked
+// to its end (num_retries up to 10 against the 10 passes of OnReceive's loop, the retry floor of 3, the breaker).
+//
+//	kind "x"  reset (connection failed)   "r" 503 response   "pf" pool connection failures armed before the start
+func persistChooser(kind string, arm int) dsx.Chooser {
+	return func(step int, opts []string, done bool) int {
+		find := func(pfx, sfx string) int {
+			best := -1
+			for i, o := range opts {
+				if strings.HasPrefix(o, pfx) && strings.HasSuffix(o, sfx) {
+					best = i // options are sorted; attempts < 10 keep their order, beyond that any live attempt is the latest anyway
+				}
+			}
+			return best
+		}
+		if i := find("S", ""); i >= 0 && opts[i] == "S" {
+			if kind == "pf" && step < arm {
+				return find("PFc", "")
+			}
+			return i
+		}
+		if done {
+			return -1
+		}
+		// only the latest attempt is live after a retry, so pick the live one with the highest index
+		bestK, best := -1, -1
+		for i, o := range opts {
+			var k int
+			switch {
+			case kind == "r" && strings.HasPrefix(o, "R") && strings.HasSuffix(o, ":503:00"):
+				fmt.Sscanf(o[1:], "%d", &k)
+			case kind != "r" && strings.HasPrefix(o, "X") && strings.HasSuffix(o, ":ConnectionFailed"):
+				fmt.Sscanf(o[1:], "%d", &k)
+			default:
+				continue
+			}
+			if k > bestK {
+				bestK, best = k, i
+			}
+		}
+		return best
+	}
+}
+
+// RunMany executes n random histories (par at a time) and emits them under prop; c10 adds the ledger-oriented
+// configurations (every threshold in {0,1,2}, ambient load) and the persistent-failure histories.
 func RunMany(c *hx.Ctx, prop string, n, par int, c10 bool) {
 	type job struct {
-		cfg  dsx.Cfg
-		seed uint64
+		cfg    dsx.Cfg
+		seed   uint64
+		kind   string
+		arm    int
+		labels int
 	}
 	jobs := make(chan job)
 	var wg sync.WaitGroup
@@ -115,8 +174,11 @@ func RunMany(c *hx.Ctx, prop string, n, par int, c10 bool) {
 			for j := range jobs {
 				var res dsx.Result
 				for try := 0; try < 3; try++ {
-					rr := hx.NewRng(j.seed)
-					res = dsx.Run(j.cfg, randomChooser(rr, 12), 9)
+					if j.kind == "" {
+						res = dsx.Run(j.cfg, randomChooser(hx.NewRng(j.seed), 8), j.labels)
+					} else {
+						res = dsx.Run(j.cfg, persistChooser(j.kind, j.arm), j.labels)
+					}
 					if !res.Skewed {
 						break
 					}
@@ -138,16 +200,51 @@ func RunMany(c *hx.Ctx, prop string, n, par int, c10 bool) {
 					c.Count("outcome.pending")
 				}
 				c.Count("route." + j.cfg.Route)
+				c.Count(fmt.Sprintf("retries.n=%d", j.cfg.N))
+				c.Count(fmt.Sprintf("attempts=%d", strings.Count(res.Out, "un:")+strings.Count(res.Out, "uf:")))
+				if c10 {
+					c.Count(fmt.Sprintf("threshold.mr=%d.mq=%d", j.cfg.MR, j.cfg.MQ))
+					c.Count(fmt.Sprintf("ambient.ar=%d.aq=%d", j.cfg.AR, j.cfg.AQ))
+				}
+				if j.kind != "" {
+					c.Count("persistent." + j.kind)
+				}
 			}
 		}()
 	}
-	for i := 0; i < n; i++ {
-		jobs <- job{GenCfg(c.Rng, c10), c.Rng.U64()}
+	rng := c.Rng.Fork().Fork() // neighbouring seeds give shifted copies of one stream; two forks decorrelate them
+	// persistent failures: the retry loop to its end, for every retry count around the floor (3) and the loop budget (10)
+	np := 0
+	for _, kind := range []string{"x", "r", "pf"} {
+		for _, nr := range []int{0, 1, 3, 4, 9, 10, 11} {
+			if !c.Thorough() && rng.Chance(50) {
+				continue
+			}
+			cfg := dsx.Cfg{Route: "c", RetryOn: true, N: nr, Data: rng.Chance(50), LongGlobal: true}
+			if c10 {
+				cfg.MR = rng.Pick([]int{0, 1, 2})
+				cfg.MQ = rng.Pick([]int{0, 2})
+				cfg.AR = rng.Intn(2)
+			}
+			arm := 0
+			if kind == "pf" {
+				arm = 1 + rng.Intn(4)
+			}
+			jobs <- job{cfg, 0, kind, arm, 20}
+			np++
+		}
+	}
+	for i := np; i < n; i++ {
+		labels := 9
+		if rng.Chance(25) {
+			labels = 14
+		}
+		jobs <- job{GenCfg(rng, c10), rng.U64(), "", 0, labels}
 	}
 	close(jobs)
 	wg.Wait()
 }
 
 func Run(c *hx.Ctx) {
-	RunMany(c, "C03", c.N(250, 1000), 8, false)
+	RunMany(c, "C03", c.N(700, 2500), 8, false)
 }
